@@ -161,7 +161,7 @@ example : Idle none ((frame [7]).map Op.push) :=
 example : Idle (some 8) (((frame [7]).map Op.push ++
     [0x1b, 0x1b, 0x1b, 0x1b, 0x01, 0x01, 0x01, 0x01, 0x1b, 0x1b, 0x1b, 0x1b, 0x02, 0, 0, 0].map Op.push)
       ++ [Op.push 0x55, Op.reset]) :=
-  Or.inr ⟨.reset 0, by decide +kernel, trivial⟩
+  Or.inr ⟨.reset 1, by decide +kernel, trivial⟩
 
 /-- a cut-off frame: `1b1b1b1b 01010101 01 02 | ...` (decoder in state `Normal`), then a frame -/
 example : (Dec.pushAll (Dec.fresh none) ((frame [1, 2, 3, 4, 5]).take 10)).1.st = .normal := by
